@@ -25,6 +25,7 @@ Time is virtual: the names `Timeout` in slimta.relay.pool / slimta.relay.smtp.cl
 import collections, errno, io, os, re, socket, types, time as _time
 
 import gevent
+import greenlet as _greenlet
 from gevent.event import AsyncResult as GAsyncResult
 
 import slimta.relay.pool as poolmod
@@ -66,6 +67,7 @@ class World(object):
         self.problems = []        # (key, what) found while observing
         self.max_pool = 0
         self.finished = set()
+        self.sema_off = []
         world = self
 
         class VTimeout(REAL_Timeout):
@@ -158,6 +160,10 @@ class World(object):
         self.TResult = TResult
         self.TDeque = TDeque
         self.TReply = TReply
+        self.switches = 0         # greenlet switches seen by the tracer (atomicity of the pool's sections)
+        self.after_check = {}     # greenlet -> switch count when its _check_idle() returned
+        self.deaths = []          # (client, exception) for clients whose _run raised
+        self.light = False        # count runs: no per-event snapshots
         self.reads = {}           # client -> [('read', msg, kind) | ('result', msg) | ('abort',)]
         self.cur_env = {}         # client -> the envelope it polled last
 
@@ -167,6 +173,7 @@ class World(object):
                        smtpclientmod.wait_read)
         self._saved_reply = smtpclientmod.Reply
         smtpclientmod.Reply = self.TReply
+        self._saved_trace = _greenlet.settrace(self._trace)
         poolmod.Timeout = self.VTimeout
         poolmod.AsyncResult = self.TResult
         poolmod.BlockingDeque = self.TDeque
@@ -178,6 +185,7 @@ class World(object):
         (poolmod.Timeout, poolmod.AsyncResult, poolmod.BlockingDeque, rclientmod.Timeout,
          smtpclientmod.wait_read) = self._saved
         smtpclientmod.Reply = self._saved_reply
+        _greenlet.settrace(self._saved_trace)
         for c in self.clients:
             if not c.dead:
                 c.kill(block=False)
@@ -188,6 +196,23 @@ class World(object):
 
     def wait_read(self, fd, timeout=None, timeout_exc=None):   # overridden by the SMTP world
         raise timeout_exc
+
+    def _trace(self, event, args):
+        self.switches += 1
+        if self._saved_trace is not None:
+            self._saved_trace(event, args)
+
+    def atomic(self, what, fn):
+        """RelayPool's check-then-add sections are correct only if no other greenlet runs inside them"""
+        n = self.switches
+        try:
+            return fn()
+        finally:
+            if self.switches != n:
+                self.problems.append(('c19:pool-check-and-add-not-atomic',
+                                      '%d greenlet switch(es) inside %s: other greenlets ran between the size check and pool.add()' % (self.switches - n, what)))
+            if what == '_check_idle':
+                self.after_check[gevent.getcurrent()] = self.switches
 
     # ---- observation
     def cur(self):
@@ -211,10 +236,20 @@ class World(object):
 
     def obs(self, ev, cur=None):
         self.activity += 1
+        if self.light:
+            p = self.pool
+            self.max_pool = max(self.max_pool, len(p.pool))
+            if p.queue.sema.counter != len(p.queue) and not self.sema_off:
+                self.sema_off.append((ev, p.queue.sema.counter, len(p.queue)))
+            return
         self.raw.append((ev, cur, self.snapshot()))
 
     def on_append(self, item, left):
         c = self.cur()
+        if not left:
+            n = self.after_check.pop(gevent.getcurrent(), None)
+            if n is not None and n != self.switches:
+                self.problems.append(('c19:pool-check-and-add-not-atomic', 'greenlet switch between _check_idle() and queue.append() in attempt()'))
         if left:
             if c is None or self.holding.get(c) is None or self.holding[c][0] is not item[0] \
                     or self.holding[c][1] is not item[1]:
@@ -491,8 +526,11 @@ class ScriptedPool(RelayPool):
     def add_client(self):
         return ScriptedClient(self.world, self.queue, self.idle_timeout)
 
+    def _check_idle(self):
+        return self.world.atomic('_check_idle', super(ScriptedPool, self)._check_idle)
+
     def _remove_client(self, client):
-        super(ScriptedPool, self)._remove_client(client)
+        self.world.atomic('_remove_client', lambda: super(ScriptedPool, self)._remove_client(client))
         self.world.on_removed(client)
 
 
@@ -1074,9 +1112,16 @@ class FakeConn(object):
 class SmtpWorld(World):
     """StaticSmtpRelay with the real SmtpRelayClient; only tracing wrappers are added"""
 
+    def __exit__(self, *a):
+        if self._saved_socket is not None:
+            rclientmod.socket = self._saved_socket
+        World.__exit__(self, *a)
+
     def __init__(self, size, idle, conn_scripts, env_scripts, env_8bit, lmtp=False, env_spec=None):
         World.__init__(self)
         self.lmtp = lmtp
+        self.ehlo_kind = 'str'
+        self._saved_socket = None
         self.env_spec = env_spec or {}       # env no -> dict(rcpts=[...], sender=..., refuse=...)
         self.nested_mail = []                # (client, env) for every MAIL the server saw inside a transaction
         self.size = size
@@ -1116,16 +1161,31 @@ class SmtpWorld(World):
             def _run(self):
                 try:
                     return super(TracedClient, self)._run()
+                except Exception as e:
+                    world.deaths.append((self.no, e))
+                    raise
                 finally:
                     world.on_finish(self)
 
         class TracedRelay(StaticRelay):
+            def _check_idle(self):
+                return world.atomic('_check_idle', super(TracedRelay, self)._check_idle)
+
             def _remove_client(self, client):
-                super(TracedRelay, self)._remove_client(client)
+                world.atomic('_remove_client', lambda: super(TracedRelay, self)._remove_client(client))
                 world.on_removed(client)
 
+        def yielding_name(address=None):
+            gevent.sleep(0)              # a cooperative lookup: other greenlets run meanwhile
+            return 'harness'
+        kind = self.ehlo_kind
+        ehlo = {'str': 'harness', 'none': None, 'callable': (lambda address: 'harness'), 'yielding': yielding_name}[kind]
+        if kind == 'none':
+            # the default: socket.getfqdn() - cooperative (it yields) once gevent has monkey-patched socket
+            self._saved_socket = rclientmod.socket
+            rclientmod.socket = types.SimpleNamespace(getfqdn=yielding_name, error=socket.error)
         self.pool = TracedRelay('192.0.2.1', 25, pool_size=self.size, client_class=TracedClient,
-                                context=object(), socket_creator=self.create_conn, ehlo_as='harness',
+                                context=object(), socket_creator=self.create_conn, ehlo_as=ehlo,
                                 idle_timeout=self.idle, connect_timeout=10, command_timeout=10, data_timeout=20)
 
     # socket_creator(address), called inside the client greenlet under Timeout(connect_timeout)
@@ -1328,6 +1388,7 @@ def run_smtp_case(cfg, script, rng=None, nsteps=0):
                   {int(k): v for k, v in cfg['env_scripts'].items()}, {int(k): v for k, v in cfg['env_8bit'].items()},
                   lmtp=bool(cfg.get('lmtp')), env_spec={int(k): v for k, v in (cfg.get('env_spec') or {}).items()})
     w.nenv = int(cfg.get('first_env', 0))
+    w.ehlo_kind = cfg.get('ehlo_as', 'str')
     fails = []
     out_script = []
     size = cfg['size']
@@ -1399,6 +1460,9 @@ def run_smtp_case(cfg, script, rng=None, nsteps=0):
             if e2:
                 fails.append(('c19:reused-connection-not-reset-after-failed-transaction', 'client %d: %s; wire %r' % (c, e2, log)))
         own_replies_oracle(w.outcomes, fails, 'scripted server')
+        for c, e in w.deaths:
+            if isinstance(e, (IndexError, KeyError, TypeError, AttributeError)):
+                fails.append(('c19:client-died-unexpectedly', 'client %d ended with %r' % (c, e)))
         for c, no in w.nested_mail:
             fails.append(('c19:reused-connection-not-reset-after-failed-transaction',
                           'client %r: the server received MAIL for envelope %r inside the transaction of an earlier message (answered 503); wire %r' % (c, no, w.wirelog.get(c))))
@@ -1430,6 +1494,7 @@ def smtp_stream(ctx, ncases, nsteps):
     for k in range(ncases):
         nat = rng.randrange(1, 6)
         cfg = dict(size=rng.choice([1, 1, 2, 2, 3, None]), idle=rng.choice([None, 7, 7]), nattempts=nat,
+                   ehlo_as=rng.choice(['str', 'str', 'callable', 'yielding']),
                    conn_scripts=[gen_cs(rng, c) for c in range(8)],
                    env_scripts={str(e): [gen_ms(rng) for _ in range(rng.choice([1, 1, 2]))] for e in range(nat)},
                    env_8bit={str(e): (rng.random() < 0.15) for e in range(nat)})
@@ -2090,6 +2155,83 @@ def real_closing_stream(ctx):
     judge_reads(ctx, runs, 'realserver-closing')
 
 
+# ====================================================================== 3d. how the client is constructed; how many attempts wait
+def ehlo_stream(ctx):
+    """overlapping attempts on bounded pools, for every documented form of ehlo_as: the client's
+    constructor runs inside the pool's check-then-add section"""
+    runs = []
+    for ehlo in ('str', 'callable', 'yielding', 'none'):
+        for size in (1, 2, 3):
+            for idle in (None, 7):
+                for burst in ([3], [2, 2], [1, 3, 1]):
+                    cs = dict(connect=1, handshake=0, hs_stage='ehlo', flavour='close', pipe=0, eightbit=1, hold=0)
+                    cfg = dict(size=size, idle=idle, nattempts=sum(burst), conn_scripts=[cs], ehlo_as=ehlo,
+                               env_scripts={}, env_8bit={})
+                    r = run_smtp_case(cfg, [[['A']] * n for n in burst])
+                    r['cfg'] = cfg
+                    runs.append(r)
+                    ctx.count('ehlo_as:' + ehlo)
+    judge_smtp(ctx, runs)
+
+
+COUNTS_QUICK = [(1, 1), (2, 2), (10, 1), (200, 2), (1023, 1), (1024, 2), (1025, 1), (1100, 2), (3000, 1)]
+COUNTS_THOROUGH = [(n, size) for n in (1, 2, 10, 200, 1023, 1024, 1025, 1100, 3000) for size in (1, 2)]
+
+
+def run_count_case(n, size, idle=7):
+    """n attempts made at the same moment on a small pool in front of a fast server"""
+    cs = dict(connect=1, handshake=0, hs_stage='ehlo', flavour='close', pipe=1, eightbit=1, hold=0)
+    w = SmtpWorld(size, idle, [cs], {}, {})
+    w.light = True
+    fails = []
+    with w:
+        w.start()
+        for _ in range(n):
+            w.do(('A',))
+        w.settle()
+        for _ in range(20):
+            if not [g for g in w.attempt_greenlets if not g.dead]:
+                break
+            if w.timers:
+                w.advance(max(min(t[0] for t in w.timers) - w.now, 1))
+            w.settle()
+        p = w.pool
+        pending = sorted(no for no in range(n) if no not in w.outcomes)
+        if pending:
+            fails.append(('c19:attempt-never-answered', '%d of %d simultaneous attempts never returned (first: envelope %d); queue length %d, semaphore %d'
+                          % (len(pending), n, pending[0], len(p.queue), p.queue.sema.counter)))
+        if len(p.queue) > 0:
+            fails.append(('c19:stranded-request', '%d request(s) left in the queue' % len(p.queue)))
+        wrong = [no for no, oc in w.outcomes.items()
+                 if not (oc[0] == 'ok' and isinstance(oc[1], dict) and oc[1] and all(addr_no(k) == no for k in oc[1]))]
+        if wrong:
+            fails.append(('c19:result-of-another-envelope', '%d attempts did not get the result of their own envelope (first: %d -> %r)'
+                          % (len(wrong), wrong[0], w.outcomes[wrong[0]])))
+        twice = [r.slot for r in w.slots if r.nset != 1]
+        if twice and not pending:
+            fails.append(('c19:result-completed-twice', 'slots completed other than exactly once: %r' % (twice[:5],)))
+        for c, e in w.deaths:
+            fails.append(('c19:client-died-unexpectedly', 'client %d ended with %r' % (c, e)))
+        if w.sema_off or p.queue.sema.counter != len(p.queue):
+            fails.append(('c19:deque-sema-differs-from-length', 'first seen at %r; at the end counter %d, length %d'
+                          % (w.sema_off[:1], p.queue.sema.counter, len(p.queue))))
+        if size and (w.max_pool > size or w.max_open > size):
+            fails.append(('c19:pool-exceeds-bound', 'pool reached %d clients / %d connections, size %d' % (w.max_pool, w.max_open, size)))
+        fails.extend(k for k in w.problems if k[0] != 'c19:result-completed-twice')
+        seen = sum(len(c.served) if hasattr(c, 'served') else 0 for c in w.conns)
+    return dict(fails=fails, answered=len(w.outcomes), nclients=len(w.clients))
+
+
+def count_stream(ctx):
+    for n, size in (COUNTS_QUICK if ctx.quick else COUNTS_THOROUGH):
+        r = run_count_case(n, size)
+        case = dict(kind='count', n=n, size=size)
+        ctx.evaluated(('count', n, size), nontrivial=n >= 10)
+        ctx.count('simultaneous-attempts:%d' % n)
+        for key, what in r['fails']:
+            ctx.fail(key, case, what)
+
+
 # ====================================================================== 4. HttpRelay: real HttpRelayClient + real http.client over a fake socket
 HW = dict(request=0, connect=1, response=2, close=3, result=4)
 HFLAV = {'ok': 0, 'rej': 1, 'rej-noheader': 1, 'refused': 2, 'silent': 3, 'hangup': 4, 'slow': 0}
@@ -2607,6 +2749,8 @@ def run(ctx):
     realserver_stream(ctx)
     closing_stream(ctx)
     real_closing_stream(ctx)
+    ehlo_stream(ctx)
+    count_stream(ctx)
     http_stream(ctx, 150 if q else 2500)
     tot_s = tot_t = 0
     allx = True
@@ -2660,6 +2804,12 @@ def replay(ctx, rep):
             print('wire of client %s: %r' % (c, log))
         for c, pl in sorted(r['polls'].items()):
             print('polls of client %s: %r' % (c, pl))
+    elif kind == 'count':
+        r = run_count_case(case['n'], case['size'])
+        print('%d simultaneous attempts, pool size %r: %d answered, %d clients' % (case['n'], case['size'], r['answered'], r['nclients']))
+        for key, what in r['fails']:
+            print('FAIL %s: %s' % (key, what))
+        return 1 if r['fails'] else 0
     elif kind == 'realserver':
         r = run_real_sequence(case['kinds'], case['pipe'])
         metamorphic(r, case['kinds'], lambda i, k: real_solo(k, case['pipe'], i)[0], r['fails'], 'real Server pipelining=%d' % case['pipe'])
